@@ -33,6 +33,15 @@ CLAIMED = {
             "Trusted: Coq kernel; hand model of *Sel.match / Selection / sel / Fn.filter / Distribution.filter / Fn.merge in coq/Model/Gfi.v tied to /repo by "
             "harness/worker_sel.py + coq/Model/CorrSel.v (runs natively, no overlay). No axioms.",
             "Coq proof by structural induction over selection syntax and choice maps + exhaustive/differential correspondence (vm_compute)", "7/C16"),
+    "C09": ("Theorems: accept iff log u < min(0, log_alpha) (all kernels); the MH balance identity a*min(1,b/a) = b*min(1,a/b); the weight mh uses is the MH log ratio of the "
+            "regenerate-from-prior proposal (via C04); mala's log_alpha is the MH log ratio of the Langevin proposal with drift eps^2/2*grad, scale eps, one noise per coordinate; "
+            "n leapfrog steps are reversible under momentum flip for ANY gradient function over ANY commutative ring; rejected moves return the input; unselected coordinates untouched. "
+            "NOT mechanised (partial): leapfrog volume preservation / detailed balance on R^n; the assembled finite-support detailed-balance statement for mh; Cond-indicator moves "
+            "are covered only through the regenerate theorems.",
+            "Trusted: Coq kernel; model coq/Model/Mcmc.v over exact rationals with dual-number gradients for Gaussian programs (affine means); jax.grad is an oracle validated by the "
+            "correspondence; harness/worker_mcmc.py scripts noise/momentum/threshold by replacing module globals mcmc.normal/uniform and reads log_alpha through a jnp.minimum proxy that "
+            "calls state.save; tolerance 2e-4, decisions within 1e-3 of the threshold are not judged. No axioms.",
+            "Coq proof (ring/field identities, induction on leapfrog count) + differential correspondence on scripted kernels (vm_compute)", "7/C09"),
     "C10": ("Theorems for ALL targets/proposals/constraints/outcomes: per-particle log weight of init/extend = log p(choices, obs) - log q(proposed or unconstrained choices) "
             "(default proposal: C10_default_weight; custom proposal with merge precedence: C10_custom_weight / C10_extend_custom_weight), rejuvenation keeps weights for any kernel, "
             "resampling keeps exp(lml) for any index vector. The expectation statement (exp(lml) unbiased for the evidence) is NOT mechanised (partial): it needs the finite-support "
